@@ -21,6 +21,28 @@ type CorreOTSendSetup struct {
 	_K_Delta [params.OTParam][params.OTBytes]byte
 }
 
+// MarshalBinary implements encoding.BinaryMarshaler, so that a setup can be stored with the config holding it.
+func (s *CorreOTSendSetup) MarshalBinary() ([]byte, error) {
+	out := make([]byte, 0, params.OTBytes*(1+params.OTParam))
+	out = append(out, s._Delta[:]...)
+	for i := range s._K_Delta {
+		out = append(out, s._K_Delta[i][:]...)
+	}
+	return out, nil
+}
+
+// UnmarshalBinary implements encoding.BinaryUnmarshaler.
+func (s *CorreOTSendSetup) UnmarshalBinary(data []byte) error {
+	if len(data) != params.OTBytes*(1+params.OTParam) {
+		return errors.New("CorreOTSendSetup: invalid length")
+	}
+	copy(s._Delta[:], data)
+	for i := range s._K_Delta {
+		copy(s._K_Delta[i][:], data[params.OTBytes*(1+i):])
+	}
+	return nil
+}
+
 // CorreOTSetupSender contains all of the state to run the Sender's setup of a Correlated OT.
 //
 // This struct is needed, because there are multiple rounds in the setup.
@@ -121,6 +143,28 @@ func (r *CorreOTSetupSender) Round3(msg *CorreOTSetupReceiveRound3Message) (*Cor
 type CorreOTReceiveSetup struct {
 	_K_0 [params.OTParam][params.OTBytes]byte
 	_K_1 [params.OTParam][params.OTBytes]byte
+}
+
+// MarshalBinary implements encoding.BinaryMarshaler, so that a setup can be stored with the config holding it.
+func (s *CorreOTReceiveSetup) MarshalBinary() ([]byte, error) {
+	out := make([]byte, 0, 2*params.OTBytes*params.OTParam)
+	for i := range s._K_0 {
+		out = append(out, s._K_0[i][:]...)
+		out = append(out, s._K_1[i][:]...)
+	}
+	return out, nil
+}
+
+// UnmarshalBinary implements encoding.BinaryUnmarshaler.
+func (s *CorreOTReceiveSetup) UnmarshalBinary(data []byte) error {
+	if len(data) != 2*params.OTBytes*params.OTParam {
+		return errors.New("CorreOTReceiveSetup: invalid length")
+	}
+	for i := range s._K_0 {
+		copy(s._K_0[i][:], data[2*params.OTBytes*i:])
+		copy(s._K_1[i][:], data[2*params.OTBytes*i+params.OTBytes:])
+	}
+	return nil
 }
 
 // CorreOTSetupReceiver holds the Receiver's state on a Correlated OT Setup.
